@@ -3,7 +3,7 @@
     ServerTotalProofs.v.  [serve] is the model of webdav.Handler, caldav.Handler,
     carddav.Handler and webdav.ServePrincipal (ServerTotal.v); [backend_total] says the
     backend double is there, returns errors with a 4xx/5xx code and never (nil, nil). *)
-From GW Require Import Base GoPath ServerTotal ServerTotalProofs.
+From GW Require Import Base GoPath ServerTotal ServerTotalProofs ServerTotalReport.
 Local Open Scope N_scope.
 
 (** No request makes a handler panic: any method, path, header values, body parse. *)
@@ -17,13 +17,66 @@ Theorem C13_complete : forall c, backend_total c = true ->
 Proof. exact serve_complete. Qed.
 Print Assumptions C13_complete.
 
-(** Invalid Depth / Overwrite / Destination / Content-Type, unparseable, empty or
-    wrongly rooted XML, unparseable iCalendar or vCard: a 4xx, and no create, update or
-    delete call reaches the backend. *)
-Theorem C13_malformed_4xx : forall c, backend_total c = true -> malformed_basic c = true ->
+(** Every malformed request gets a 4xx and reaches no create, update or delete call:
+    invalid Depth / Overwrite / Destination / Content-Type, unparseable, empty or wrongly
+    rooted XML, unparseable iCalendar or vCard ([malformed_basic]), and, in REPORT
+    documents of any shape, mutually exclusive elements, invalid dates, enumeration
+    values and limits ([malformed_report], a predicate on the XML tree). *)
+Theorem C13_malformed_4xx : forall c, backend_total c = true -> malformed c = true ->
+  exists s, serve c = Resp s [] /\ 400 <= s /\ s < 500.
+Proof. exact malformed_refused. Qed.
+Print Assumptions C13_malformed_4xx.
+
+(** The two halves separately. *)
+Theorem C13_malformed_basic_4xx : forall c, backend_total c = true -> malformed_basic c = true ->
   exists s, serve c = Resp s [] /\ 400 <= s /\ s < 500.
 Proof. exact malformed_basic_refused. Qed.
-Print Assumptions C13_malformed_4xx.
+Print Assumptions C13_malformed_basic_4xx.
+
+Theorem C13_malformed_report_4xx : forall c, backend_total c = true -> malformed_report c = true ->
+  exists s, serve c = Resp s [] /\ 400 <= s /\ s < 500.
+Proof. exact malformed_report_refused. Qed.
+Print Assumptions C13_malformed_report_4xx.
+
+(** The REPORT handlers, whatever the backend: a calendar-query / calendar-multiget /
+    addressbook-query / addressbook-multiget tree in which, at any depth of comp-filter or
+    comp nesting and at any position among its siblings, is-not-defined stands next to
+    time-range / text-match / param-filter / prop-filter / comp-filter, allprop next to
+    prop, allcomp next to comp, or a start / end / negate-condition / match-type / test
+    attribute or an nresults text is invalid, is answered 400 before the backend is asked. *)
+Theorem C13_cal_report_tree_400 : forall env r root,
+  r_xml r = XTree root -> rfc_cal_report_bad root = true -> cal_handle_report env r = bad_request.
+Proof. exact cal_report_bad_400. Qed.
+Print Assumptions C13_cal_report_tree_400.
+
+Theorem C13_card_report_tree_400 : forall env r root,
+  r_xml r = XTree root -> rfc_card_report_bad root = true -> card_handle_report env r = bad_request.
+Proof. exact card_report_bad_400. Qed.
+Print Assumptions C13_card_report_tree_400.
+
+(** The decoders reject what the RFC predicates flag, for every accumulator (a repeated
+    element is unmarshalled into the value decoded so far) and every depth; and once a
+    merged comp-filter / comp is rejected, no further element un-rejects it. *)
+Theorem C13_comp_filter_rejected : forall t, rfc_cf_bad t = true ->
+  forall d acc v, um_comp_filter d acc t = Some v -> decode_comp_filter v = false.
+Proof. exact cf_rej. Qed.
+Print Assumptions C13_comp_filter_rejected.
+
+Theorem C13_comp_filter_monotone : forall d acc t v,
+  um_comp_filter d acc t = Some v -> decode_comp_filter acc = false -> decode_comp_filter v = false.
+Proof. exact cf_mono. Qed.
+Print Assumptions C13_comp_filter_monotone.
+
+Theorem C13_comp_rejected : forall t, rfc_comp_bad t = true ->
+  forall d acc v, um_comp d acc t = Some v -> decode_comp v = false.
+Proof. exact comp_rej. Qed.
+Print Assumptions C13_comp_rejected.
+
+(** Agreement of an observation with the model entails the specification the oracle
+    evaluates (so a specification failure always comes with a model disagreement). *)
+Theorem C13_agree_implies_spec_ok : forall c o, model_agrees c o = true -> spec_ok c o = true.
+Proof. exact agree_implies_spec_ok. Qed.
+Print Assumptions C13_agree_implies_spec_ok.
 
 (** The hypothesis on the backend is needed: a (nil, nil) result, an error with
     status code 0 and a nil options pointer each make the model panic (as the code does). *)
@@ -46,66 +99,64 @@ Theorem C13_prop_get_never_marshal_only : forall raws ns l r,
 Proof. exact prop_get_tok. Qed.
 Print Assumptions C13_prop_get_never_marshal_only.
 
-(** REPORT documents, partial: (a) whatever makes the report decoder fail is a 400;
-    (b) a decoded calendar-query whose filter violates the is-not-defined exclusivity
-    anywhere in the tree of comp-filters, or whose calendar-data is rejected, is a 400
-    before the backend is asked; the same for CardDAV.  The step from the XML tree to
-    the decoded structure (malformed_report) is not proved, see notes/C13.md. *)
-Theorem C13_report_undecodable_400_partial : forall env r,
+(** REPORT documents, the building blocks: (a) whatever makes the report decoder fail is
+    a 400; (b) a decoded calendar-query whose filter violates the is-not-defined
+    exclusivity anywhere in the tree of comp-filters, or whose calendar-data is rejected,
+    is a 400 before the backend is asked; the same for CardDAV. *)
+Theorem C13_report_undecodable_400 : forall env r,
   dx_failed (decode_xml_request r (um_cal_report (r_url_ok r) 0)) -> cal_handle_report env r = bad_request.
 Proof. exact cal_report_undecodable. Qed.
-Print Assumptions C13_report_undecodable_400_partial.
+Print Assumptions C13_report_undecodable_400.
 
-Theorem C13_card_report_undecodable_400_partial : forall env r,
+Theorem C13_card_report_undecodable_400 : forall env r,
   dx_failed (decode_xml_request r (um_card_report (r_url_ok r) 0)) -> card_handle_report env r = bad_request.
 Proof. exact card_report_undecodable. Qed.
-Print Assumptions C13_card_report_undecodable_400_partial.
+Print Assumptions C13_card_report_undecodable_400.
 
-Theorem C13_cal_query_rejected_400_partial : forall env r q,
+Theorem C13_cal_query_rejected_400 : forall env r q,
   cal_data_of_prop (cq_sel q) = Ok false \/ decode_comp_filter (cq_filter q) = false ->
   cal_handle_query env r q = bad_request.
 Proof. exact cal_query_rejected. Qed.
-Print Assumptions C13_cal_query_rejected_400_partial.
+Print Assumptions C13_cal_query_rejected_400.
 
-Theorem C13_exclusive_filter_rejected_partial : forall c, cf_exclusive c -> decode_comp_filter c = false.
+Theorem C13_exclusive_filter_rejected : forall c, cf_exclusive c -> decode_comp_filter c = false.
 Proof. exact cf_exclusive_rejected. Qed.
-Print Assumptions C13_exclusive_filter_rejected_partial.
+Print Assumptions C13_exclusive_filter_rejected.
 
-Theorem C13_card_query_rejected_400_partial : forall env r q,
+Theorem C13_card_query_rejected_400 : forall env r q,
   addr_data_of_prop (aq_sel q) = SBad \/
   (addr_data_of_prop (aq_sel q) = SGo /\ forallb decode_aprop_filter (af_props (aq_filter q)) = false) ->
   card_handle_query env r q = bad_request.
 Proof. exact card_query_rejected. Qed.
-Print Assumptions C13_card_query_rejected_400_partial.
+Print Assumptions C13_card_query_rejected_400.
 
 (** Invalid dates, enumeration values and limits make the decoder of the element that
-    carries them fail, whatever was decoded before (so the request ends as (a) above
-    once the failure is propagated, which the correspondence check exercises). *)
-Theorem C13_invalid_date_fails_partial : forall d acc ns l attrs kids a,
+    carries them fail, whatever was decoded before. *)
+Theorem C13_invalid_date_fails : forall d acc ns l attrs kids a,
   In a attrs -> bad_attr parse_utc_ok "start" a || bad_attr parse_utc_ok "end" a = true ->
   um_time_range d acc (XElem ns l attrs kids) = None /\ um_expand d acc (XElem ns l attrs kids) = None.
 Proof. exact time_range_invalid. Qed.
-Print Assumptions C13_invalid_date_fails_partial.
+Print Assumptions C13_invalid_date_fails.
 
-Theorem C13_invalid_text_match_fails_partial : forall card tns d acc ns l attrs kids a,
+Theorem C13_invalid_text_match_fails : forall card tns d acc ns l attrs kids a,
   In a attrs ->
   bad_attr yes_no_ok "negate-condition" a || (card && bad_attr match_type_ok "match-type" a) = true ->
   um_text_match card tns d acc (XElem ns l attrs kids) = None.
 Proof. exact text_match_invalid. Qed.
-Print Assumptions C13_invalid_text_match_fails_partial.
+Print Assumptions C13_invalid_text_match_fails.
 
-Theorem C13_invalid_test_fails_partial : forall d ns l attrs kids a,
+Theorem C13_invalid_test_fails : forall d ns l attrs kids a,
   In a attrs -> bad_attr filter_test_ok "test" a = true ->
   (forall acc, um_card_filter d acc (XElem ns l attrs kids) = None) /\
   (forall acc, um_aprop_filter d acc (XElem ns l attrs kids) = None).
 Proof. exact card_test_invalid. Qed.
-Print Assumptions C13_invalid_test_fails_partial.
+Print Assumptions C13_invalid_test_fails.
 
-Theorem C13_invalid_limit_fails_partial : forall d acc ns l attrs kids kns ka kk,
+Theorem C13_invalid_limit_fails : forall d acc ns l attrs kids kns ka kk,
   In (XElem kns "nresults" ka kk) kids -> parse_uint (chardata kk) = None ->
   um_limit d acc (XElem ns l attrs kids) = None.
 Proof. exact limit_invalid. Qed.
-Print Assumptions C13_invalid_limit_fails_partial.
+Print Assumptions C13_invalid_limit_fails.
 
 (** The oracle's acceptance test is the declarative statement. *)
 Theorem C13_acceptable_spec : forall c o,
